@@ -35,12 +35,28 @@ CHECKS = {
          "Trusted: vt/fifo.py (40 lines) and the en/rdy clipping loop of the harness. valrdy_queues.py is unimportable on this tree and therefore not covered. "
          "Reset mid-history is not part of the property and not explored.",
          "DESIGN.md 6.C17", "E1 E4"),
+ "C01": ("model_checking",
+         "schedule enumeration on the real simulator: all pass groups x all linear extensions (cap) x all ff permutations x SimpleSchedulePass shuffle-seam DFS, vs an independent dataflow reference",
+         "For ~600 generated designs (access-shape products over Bits/struct/nested/list carriers, hierarchy placements, nets, registers) every one of the five "
+         "scheduling pass groups, every linear extension of the constraint DAG (cap 60/720) times every flip-flop order, and every schedule SimpleSchedulePass can "
+         "emit are run over all input vectors / sequences; ALL signals are compared with the reference after each eval and tick, and the fixed point is re-checked.",
+         "Trusted: vt/irref.py (reference evaluator, self-checked by reverse-order settle) and the generators' legality. Bounds: widths <= 4, <= 7 blocks, sequence length 2 (3).",
+         "DESIGN.md 6.C01", "E1 E2"),
+ "C02": ("model_checking",
+         "recorded execution order (sys.setprofile) of every block in every pass group and every shuffle-seam schedule, checked against bit-level read/write sets from the IR",
+         "For the same design families plus explicit-constraint, cyclic-constraint, CL-queue-caller and FL (greenlet) designs, the order in which update blocks and "
+         "net blocks actually execute inside sim_eval_combinational and sim_tick is recorded and every writer-before-reader and explicit obligation is checked; "
+         "each block must run exactly once per pass.",
+         "Trusted: bit-level access analysis in vt/ir.py; net blocks are identified through genblk_writes. Variable indices are treated conservatively.",
+         "DESIGN.md 6.C02", "E1 E2"),
 }
 
 NOT_YET = {}
 
 ENGINES = [
   dict(name="E1", path="vt/explore.py", kind_free_text="explicit-state / stateless exploration library: choice-point DFS, linear extensions, BFS by history over the real transition function",
+       serves_properties=[]),
+  dict(name="E2", path="vt/ir.py vt/irgen.py vt/irref.py vt/dut.py", kind_free_text="design IR, bounded design-family generators, pymtl3 emitter, independent reference evaluator, pass-group driver",
        serves_properties=[]),
   dict(name="E4", path="vt/fifo.py", kind_free_text="small independent reference models (FIFO list spec, memory, ISA interpreter, VCD reader, struct layout)",
        serves_properties=[]),
